@@ -339,10 +339,10 @@ pub fn run(tier: Tier, replay: Option<Value>) -> i32 {
         }
     }
     let needs: &[(&str, u64)] = if replay.is_some() { &[] } else {
-        &[("healthy_validations", 100), ("healthy_states_with_interrupted_band", 3), ("damages_applied", 200), ("harmful_damages", 50), ("harmless_damages", 5), ("large_healthy_archives", 2), ("healthy_validations_with_few_file_descriptors", 1), ("harmful_damages_validated_with_a_stale_gc_lock", 20), ("healthy_archives_with_a_block_above_the_block_size", 1)]
+        &[("healthy_validations", 100), ("healthy_states_with_interrupted_band", 3), ("damages_applied", 200), ("harmful_damages", 50), ("harmless_damages", 5), ("large_healthy_archives", 2), ("healthy_validations_with_few_file_descriptors", 1), ("harmful_damages_validated_with_a_stale_gc_lock", 20), ("healthy_archives_with_a_block_above_the_block_size", 1), ("healthy_histories_with_255_byte_names", 10)]
     };
     run.finish(
-        "a third of the harmful damages (and a quarter of the healthy states) are validated once more with a GC_LOCK file left in the archive: the verdicts must not change; two large healthy archives (default options: 21 files of 1 000 000 bytes, i.e. a combined block above the 20 MiB block size, plus a file of more than one block; 300 one-file blocks) validated fully and quickly on both runtime flavours, the 300-block one also in a child process limited to 160 open files (RLIMIT_NOFILE); (every third healthy history and every second damaged archive is validated on a 4-worker multi-thread runtime) healthy side: histories as in C02 (completed and interrupted-with-header backups, deletes, gcs; states with a head-less band directory skipped); after every archive-changing step full and quick validation must return Ok and report nothing. Damage side: archives with 2-4 bands (complete, interrupted in the middle, interrupted newest) sharing blocks; EVERY file except CONSERVE x {delete (not for BANDTAIL), truncate to 0, truncate to half, overwrite with seeded garbage} and 8 seeded bit flips per block; a damage is harmful when some version's restore by id fails, reports (more) errors or differs from its pre-damage result (interrupted versions with a header included; only the vanished or emptied last hunk of an interrupted band is exempt, because that state is exactly what an interruption leaves); every harmful damage must make full validation report >= 1 error, and every harmful deletion quick validation too. Distinct = (archive, damaged file, action) that is harmful.",
+        "every third healthy history has names of exactly 255 bytes (ASCII, 85 three-byte characters, a directory with a file inside); a third of the harmful damages (and a quarter of the healthy states) are validated once more with a GC_LOCK file left in the archive: the verdicts must not change; two large healthy archives (default options: 21 files of 1 000 000 bytes, i.e. a combined block above the 20 MiB block size, plus a file of more than one block; 300 one-file blocks) validated fully and quickly on both runtime flavours, the 300-block one also in a child process limited to 160 open files (RLIMIT_NOFILE); (every third healthy history and every second damaged archive is validated on a 4-worker multi-thread runtime) healthy side: histories as in C02 (completed and interrupted-with-header backups, deletes, gcs; states with a head-less band directory skipped); after every archive-changing step full and quick validation must return Ok and report nothing. Damage side: archives with 2-4 bands (complete, interrupted in the middle, interrupted newest) sharing blocks; EVERY file except CONSERVE x {delete (not for BANDTAIL), truncate to 0, truncate to half, overwrite with seeded garbage} and 8 seeded bit flips per block; a damage is harmful when some version's restore by id fails, reports (more) errors or differs from its pre-damage result (interrupted versions with a header included; only the vanished or emptied last hunk of an interrupted band is exempt, because that state is exactly what an interruption leaves); every harmful damage must make full validation report >= 1 error, and every harmful deletion quick validation too. Distinct = (archive, damaged file, action) that is harmful.",
         &["the last hunk of an incomplete band can vanish without any format-level trace: exempt", "E1 walker decides 'restores exactly'"],
         Some(true),
         needs,
